@@ -563,6 +563,17 @@ theorem step_dq {s : FState} (hr : Reg s) :
   simp [step, stepHeredoc, stepLiteral, stepRegular, stepRegular2, stepBrace, maybeFlush,
     rBQ, rLT, rBS, rDQ, rHash, rOpen, rClose, isSpace]
 
+/-- an opening quote at the start of a token is an ordinary first character that additionally
+    switches quoted mode on -/
+theorem step_bq {s : FState} (hr : Reg s) :
+    step s rBQ = stepWord (maybeFlush { s with space := false, backquoted := s.space } s.space) s.space rBQ := by
+  obtain ⟨h1, h2, h3, h4, h5, h7, h8, h9, h6⟩ := hr
+  obtain ⟨rout, last, space, bol, ob, obw, obs, nls, cm, q, esc, hd, hst, hde, mk, cl, nest, wbq, tke, ctd⟩ := s
+  simp only at h1 h2 h3 h4 h5 h6 h7 h8 h9
+  subst h1 h2 h3 h4 h5 h7 h8 h9
+  simp [step, stepHeredoc, stepLiteral, stepRegular, stepRegular2, stepBrace, maybeFlush,
+    rBQ, rLT, rBS, rDQ, rHash, rOpen, rClose, isSpace]
+
 /-- no `{` pending, at least one newline since the last word: newline(s) + indentation + `"` -/
 theorem first_dq_nl {t : FState} (hr : Reg t)
     (h1 : t.space = true) (h2 : (t.openBrace && !t.openBraceWritten) = false) (h3 : 1 ≤ t.newLines) :
@@ -582,11 +593,43 @@ theorem first_dq_nl {t : FState} (hr : Reg t)
         FState.indent, FState.write, tabsN, nlsN, hm, hn, rDQ, rNL, rClose, rTAB]
   )
 
+/-- no `{` pending, at least one newline since the last word: newline(s) + indentation + `` ` `` -/
+theorem first_bq_nl {t : FState} (hr : Reg t)
+    (h1 : t.space = true) (h2 : (t.openBrace && !t.openBraceWritten) = false) (h3 : 1 ≤ t.newLines) :
+    step t rBQ = { t with rout := rBQ :: (tabsN t.nesting ++ (nlsN (min t.newLines 2) ++ t.rout)), last := rBQ, space := false, bol := false, newLines := 0, backquoted := true } := by
+  rw [step_bq hr]
+  destruct_state t
+  simp only at h1 h2 h3
+  subst h1
+  cases ob <;> cases obw <;> simp at h2
+  all_goals (
+    have hm : min nls 2 ≠ 0 := by omega
+    by_cases hn : nest = 0
+    · subst hn
+      simp [maybeFlush, stepWord, stepWord2, stepWord3, stepWord4, stepWord5, stepWord6, nextLines_eq, tabs_eq,
+        FState.indent, FState.write, tabsN, nlsN, hm, rBQ, rNL, rClose, rTAB]
+    · simp [maybeFlush, stepWord, stepWord2, stepWord3, stepWord4, stepWord5, stepWord6, nextLines_eq, tabs_eq,
+        FState.indent, FState.write, tabsN, nlsN, hm, hn, rBQ, rNL, rClose, rTAB]
+  )
+
 /-- no `{` pending, same line, not at the beginning of a line: one blank + `"` -/
 theorem first_dq_sp {t : FState} (hr : Reg t)
     (h1 : t.space = true) (h2 : (t.openBrace && !t.openBraceWritten) = false) (h3 : t.newLines = 0) (h4 : t.bol = false) :
     step t rDQ = { t with rout := rDQ :: rSP :: t.rout, last := rDQ, space := false, quoted := true } := by
   rw [step_dq hr]
+  destruct_state t
+  simp only at h1 h2 h3 h4
+  subst h1 h3 h4
+  cases ob <;> cases obw <;> simp at h2
+  all_goals (
+    simp [maybeFlush, stepWord, stepWord2, stepWord3, stepWord4, stepWord5, stepWord6, FState.nextLines, FState.write]
+  )
+
+/-- no `{` pending, same line, not at the beginning of a line: one blank + `` ` `` -/
+theorem first_bq_sp {t : FState} (hr : Reg t)
+    (h1 : t.space = true) (h2 : (t.openBrace && !t.openBraceWritten) = false) (h3 : t.newLines = 0) (h4 : t.bol = false) :
+    step t rBQ = { t with rout := rBQ :: rSP :: t.rout, last := rBQ, space := false, backquoted := true } := by
+  rw [step_bq hr]
   destruct_state t
   simp only at h1 h2 h3 h4
   subst h1 h3 h4
@@ -614,12 +657,53 @@ theorem first_dq_bol {t : FState} (hr : Reg t)
         FState.indent, FState.write, tabsN, hn, rClose, rTAB]
   )
 
+/-- no `{` pending, at the beginning of a fresh line (right after the newline that ended a
+    comment): indentation + `` ` `` -/
+theorem first_bq_bol {t : FState} (hr : Reg t)
+    (h1 : t.space = true) (h2 : (t.openBrace && !t.openBraceWritten) = false) (h3 : t.newLines = 0) (h4 : t.bol = true) (h5 : t.last = 10) :
+    step t rBQ = { t with rout := rBQ :: (tabsN t.nesting ++ t.rout), last := rBQ, space := false, bol := false, backquoted := true } := by
+  rw [step_bq hr]
+  destruct_state t
+  simp only at h1 h2 h3 h4 h5
+  subst h1 h3 h4 h5
+  cases ob <;> cases obw <;> simp at h2
+  all_goals (
+    by_cases hn : nest = 0
+    · subst hn
+      simp [maybeFlush, stepWord, stepWord2, stepWord3, stepWord4, stepWord5, stepWord6, FState.nextLines, tabs_eq,
+        FState.indent, FState.write, tabsN, rClose, rTAB]
+    · simp [maybeFlush, stepWord, stepWord2, stepWord3, stepWord4, stepWord5, stepWord6, FState.nextLines, tabs_eq,
+        FState.indent, FState.write, tabsN, hn, rClose, rTAB]
+  )
+
 /-- a `{` is pending (written neither at the brace nor since): `{`, newline, indentation, `"` -/
 theorem pending_dq {t : FState} (hr : Reg t)
     (h1 : t.space = true) (h2 : t.openBrace = true) (h3 : t.openBraceWritten = false) (h4 : t.last ≠ 125)
     (h5 : (t.bol = false ∧ t.openBraceSpace = true) ∨ (t.bol = true ∧ t.nesting = 0)) :
     step t rDQ = { t with rout := rDQ :: (tabsN (nextN t.nesting .opn) ++ (rNL :: rOpen :: t.rout)), last := rDQ, space := false, bol := false, openBrace := false, openBraceWritten := true, newLines := 0, nesting := nextN t.nesting .opn, quoted := true } := by
   rw [step_dq hr]
+  destruct_state t
+  simp only at h1 h2 h3 h4 h5
+  subst h1 h2 h3
+  rcases h5 with ⟨rfl, rfl⟩ | ⟨rfl, rfl⟩
+  · by_cases hn : nest < 10
+    · simp [maybeFlush, flushOpen, flush1, flush2, flush3, flush4, stepWord, stepWord2, stepWord3, stepWord4, stepWord5,
+        stepWord6, FState.nextLines, tabs_eq, FState.indent, FState.nextLine, FState.write, tabsN, nextN, hn, h4,
+        rNL, rClose, rTAB, rOpen]
+    · have : nest ≠ 0 := by omega
+      simp [maybeFlush, flushOpen, flush1, flush2, flush3, flush4, stepWord, stepWord2, stepWord3, stepWord4, stepWord5,
+        stepWord6, FState.nextLines, tabs_eq, FState.indent, FState.nextLine, FState.write, tabsN, nextN, hn, h4, this,
+        rNL, rClose, rTAB, rOpen]
+  · simp [maybeFlush, flushOpen, flush1, flush2, flush3, flush4, stepWord, stepWord2, stepWord3, stepWord4, stepWord5,
+      stepWord6, FState.nextLines, FState.tabs, FState.indent, FState.nextLine, FState.write, tabsN, nextN, h4,
+      rNL, rClose, rTAB, rOpen]
+
+/-- a `{` is pending (written neither at the brace nor since): `{`, newline, indentation, `` ` `` -/
+theorem pending_bq {t : FState} (hr : Reg t)
+    (h1 : t.space = true) (h2 : t.openBrace = true) (h3 : t.openBraceWritten = false) (h4 : t.last ≠ 125)
+    (h5 : (t.bol = false ∧ t.openBraceSpace = true) ∨ (t.bol = true ∧ t.nesting = 0)) :
+    step t rBQ = { t with rout := rBQ :: (tabsN (nextN t.nesting .opn) ++ (rNL :: rOpen :: t.rout)), last := rBQ, space := false, bol := false, openBrace := false, openBraceWritten := true, newLines := 0, nesting := nextN t.nesting .opn, backquoted := true } := by
+  rw [step_bq hr]
   destruct_state t
   simp only at h1 h2 h3 h4 h5
   subst h1 h2 h3
@@ -731,8 +815,8 @@ structure InvQ (N : Nat) (s : FState) : Prop where
   nl : s.newLines = 0
   nb : (s.openBrace && !s.openBraceWritten) = false
   nest : s.nesting = N
-  last : s.last = 34
-  head : ∃ r, s.rout = 34 :: r
+  last : s.last = 34 ∨ s.last = 96
+  head : ∃ r, s.rout = s.last :: r
 
 def Inv : Option Kind → Nat → FState → Prop
   | none, N, s => s = {} ∧ N = 0
@@ -745,9 +829,9 @@ def Inv : Option Kind → Nat → FState → Prop
 theorem InvQ.toP {N : Nat} {s : FState} (h : InvQ N s) : InvP N { s with tokenEnded := false } := by
   obtain ⟨r, hr⟩ := h.head
   refine ⟨⟨h.comment, h.quoted, h.escaped, h.heredoc, h.bq, h.hst, rfl, h.cont, ?_⟩, h.space, h.bol, h.nl, h.nb, h.nest, ?_, ⟨r, ?_⟩⟩
-  · show s.last ≠ 60; rw [h.last]; decide
-  · show isSpace s.last = false; rw [h.last]; decide
-  · show s.rout = s.last :: r; rw [h.last]; exact hr
+  · show s.last ≠ 60; rcases h.last with h | h <;> rw [h] <;> decide
+  · show isSpace s.last = false; rcases h.last with h | h <;> rw [h] <;> decide
+  · exact hr
 
 /-- the first white-space character after a closing quote clears `tokenEnded` -/
 theorem step_ws_te {N : Nat} {s : FState} {c : Rune} (h : InvQ N s) (hc : wsCh c = true) :
@@ -872,6 +956,9 @@ theorem cmt_word {t t1 : FState} {as : List Rune} {N : Nat}
 theorem dqCh_spec {c : Rune} (h : dqCh c = true) : c ≠ 34 ∧ c ≠ 92 ∧ c ≠ 10 := by
   simpa [dqCh, rDQ, rBS, rNL, and_assoc] using h
 
+theorem bqCh_spec {c : Rune} (h : bqCh c = true) : c ≠ 96 ∧ c ≠ 10 := by
+  simpa [bqCh, rBQ, rNL] using h
+
 /-- inside a simple string every character is copied -/
 theorem foldl_dq : ∀ (cs : List Rune) (s : FState), s.quoted = true → s.comment = false → s.backquoted = false →
     s.escaped = false → s.heredoc = 0 → s.heredocStart = false → s.continued = false → cs.all dqCh = true →
@@ -888,6 +975,22 @@ theorem foldl_dq : ∀ (cs : List Rune) (s : FState), s.quoted = true → s.comm
     rw [List.foldl_cons, hstep, foldl_dq cs { s with rout := c :: s.rout, last := c } h1 h2 h3 h4 h5 h6 h7 hc.2]
     simp [lastOf, List.reverse_cons, List.append_assoc]
 
+/-- inside a simple backquoted string every character is copied -/
+theorem foldl_bq : ∀ (cs : List Rune) (s : FState), s.backquoted = true → s.comment = false → s.quoted = false →
+    s.escaped = false → s.heredoc = 0 → s.heredocStart = false → s.continued = false → cs.all bqCh = true →
+    cs.foldl step s = { s with rout := cs.reverse ++ s.rout, last := lastOf s.last cs }
+  | [], s, _, _, _, _, _, _, _, _ => by simp [lastOf]
+  | c :: cs, s, h1, h2, h3, h4, h5, h6, h7, hc => by
+    simp only [List.all_cons, Bool.and_eq_true] at hc
+    obtain ⟨h34, h10⟩ := bqCh_spec hc.1
+    have hstep : step s c = { s with rout := c :: s.rout, last := c } := by
+      obtain ⟨rout, last, space, bol, ob, obw, obs, nls, cm, q, esc, hd, hst, hde, mk, cl, nest, wbq, tke, ctd⟩ := s
+      simp only at h1 h2 h3 h4 h5 h6 h7
+      subst h1 h2 h3 h4 h5 h6 h7
+      simp [step, stepHeredoc, stepLiteral, FState.write, rBQ, rBS, h34]
+    rw [List.foldl_cons, hstep, foldl_bq cs { s with rout := c :: s.rout, last := c } h1 h2 h3 h4 h5 h6 h7 hc.2]
+    simp [lastOf, List.reverse_cons, List.append_assoc]
+
 /-- the closing quote -/
 theorem dq_close {s : FState} (h1 : s.quoted = true) (h2 : s.comment = false) (h3 : s.backquoted = false)
     (h4 : s.escaped = false) (h5 : s.heredoc = 0) (h6 : s.heredocStart = false) (h7 : s.continued = false) :
@@ -896,6 +999,15 @@ theorem dq_close {s : FState} (h1 : s.quoted = true) (h2 : s.comment = false) (h
   simp only at h1 h2 h3 h4 h5 h6 h7
   subst h1 h2 h3 h4 h5 h6 h7
   simp [step, stepHeredoc, stepLiteral, FState.write, rDQ, rBS]
+
+/-- the closing quote -/
+theorem bq_close {s : FState} (h1 : s.backquoted = true) (h2 : s.comment = false) (h3 : s.quoted = false)
+    (h4 : s.escaped = false) (h5 : s.heredoc = 0) (h6 : s.heredocStart = false) (h7 : s.continued = false) :
+    step s rBQ = { s with rout := rBQ :: s.rout, last := rBQ, backquoted := false, tokenEnded := true } := by
+  obtain ⟨rout, last, space, bol, ob, obw, obs, nls, cm, q, esc, hd, hst, hde, mk, cl, nest, wbq, tke, ctd⟩ := s
+  simp only at h1 h2 h3 h4 h5 h6 h7
+  subst h1 h2 h3 h4 h5 h6 h7
+  simp [step, stepHeredoc, stepLiteral, FState.write, rBQ, rBS]
 
 /-- a simple string `"as"` whose opening quote leads to `t1` ends in an `InvQ` state -/
 theorem dq_word {t t1 : FState} {as : List Rune} {N : Nat}
@@ -909,7 +1021,21 @@ theorem dq_word {t t1 : FState} {as : List Rune} {N : Nat}
   rw [List.foldl_cons, hstep, List.foldl_append, foldl_dq as t1 hq hc hb he hh hs hct has]
   simp only [List.foldl_cons, List.foldl_nil]
   rw [dq_close (s := { t1 with rout := as.reverse ++ t1.rout, last := lastOf t1.last as }) hq hc hb he hh hs hct]
-  exact ⟨⟨hc, rfl, he, hh, hb, hs, rfl, hct, h1, h2, h3, h4, h5, rfl, ⟨_, rfl⟩⟩, rfl⟩
+  exact ⟨⟨hc, rfl, he, hh, hb, hs, rfl, hct, h1, h2, h3, h4, h5, Or.inl rfl, ⟨_, rfl⟩⟩, rfl⟩
+
+/-- a simple backquoted string `"as"` whose opening quote leads to `t1` ends in an `InvQ` state -/
+theorem bq_word {t t1 : FState} {as : List Rune} {N : Nat}
+    (hstep : step t rBQ = t1) (has : as.all bqCh = true)
+    (hq : t1.backquoted = true) (hc : t1.comment = false) (he : t1.escaped = false) (hh : t1.heredoc = 0)
+    (hb : t1.quoted = false) (hs : t1.heredocStart = false) (hct : t1.continued = false)
+    (h1 : t1.space = false) (h2 : t1.bol = false) (h3 : t1.newLines = 0) (h4 : (t1.openBrace && !t1.openBraceWritten) = false)
+    (h5 : t1.nesting = N) :
+    InvQ N ((rBQ :: (as ++ [rBQ])).foldl step t) ∧
+      ((rBQ :: (as ++ [rBQ])).foldl step t).rout = rBQ :: (as.reverse ++ t1.rout) := by
+  rw [List.foldl_cons, hstep, List.foldl_append, foldl_bq as t1 hq hc hb he hh hs hct has]
+  simp only [List.foldl_cons, List.foldl_nil]
+  rw [bq_close (s := { t1 with rout := as.reverse ++ t1.rout, last := lastOf t1.last as }) hq hc hb he hh hs hct]
+  exact ⟨⟨hc, hb, he, hh, rfl, hs, rfl, hct, h1, h2, h3, h4, h5, Or.inr rfl, ⟨_, rfl⟩⟩, rfl⟩
 
 theorem dqTail_spec : ∀ (t : List Rune), dqTail t = true → ∃ content, t = content ++ [rDQ] ∧ content.all dqCh = true
   | [], h => by simp [dqTail] at h
@@ -919,6 +1045,16 @@ theorem dqTail_spec : ∀ (t : List Rune), dqTail t = true → ∃ content, t = 
   | c :: d :: t, h => by
     simp only [dqTail, Bool.and_eq_true] at h
     obtain ⟨content, hc, hall⟩ := dqTail_spec (d :: t) h.2
+    exact ⟨c :: content, by simp [hc], by simp [h.1, hall]⟩
+
+theorem bqTail_spec : ∀ (t : List Rune), bqTail t = true → ∃ content, t = content ++ [rBQ] ∧ content.all bqCh = true
+  | [], h => by simp [bqTail] at h
+  | [c], h => by
+    simp only [bqTail, beq_iff_eq] at h
+    exact ⟨[], by simp [h], rfl⟩
+  | c :: d :: t, h => by
+    simp only [bqTail, Bool.and_eq_true] at h
+    obtain ⟨content, hc, hall⟩ := bqTail_spec (d :: t) h.2
     exact ⟨c :: content, by simp [hc], by simp [h.1, hall]⟩
 
 theorem plainCh_hash : plainCh rHash = false := by decide
@@ -933,6 +1069,10 @@ theorem pwOK_dq (as : List Rune) : pwOK false (rDQ :: as) = false := by
   have h : plainCh 34 = false := by decide
   simp [pwOK, rDQ, rOpen, h]
 
+theorem pwOK_bq (as : List Rune) : pwOK false (rBQ :: as) = false := by
+  have h : plainCh 96 = false := by decide
+  simp [pwOK, rBQ, rOpen, h]
+
 theorem kind_plain_word {c : Chunk} (hw : c.wordOK = true) (hk : c.kind = .plain) :
     ∃ a as, c.word = a :: as ∧ pwOK false (a :: as) = true := by
   unfold Chunk.kind at hk
@@ -945,19 +1085,23 @@ theorem kind_plain_word {c : Chunk} (hw : c.wordOK = true) (hk : c.kind = .plain
       · cases hk
       · split at hk
         · cases hk
-        · rename_i h1 h2 h3 h4
-          cases hcw : c.word with
-          | nil => simp [hcw] at hw
-          | cons a as =>
-            rw [hcw] at hw h3 h4
-            have ha : (a == rHash) = false := by
-              simp only [List.head?_cons, Option.some.injEq] at h3; simp [h3]
-            have ha' : (a == rDQ) = false := by
-              simp only [List.head?_cons, Option.some.injEq] at h4; simp [h4]
-            simp only [hcw] at h1 h2
-            simp only [Bool.or_eq_true, beq_iff_eq, h1, h2, false_or, ha, ha', Bool.false_and,
-              Bool.false_eq_true] at hw
-            exact ⟨a, as, rfl, hw⟩
+        · split at hk
+          · cases hk
+          · rename_i h1 h2 h3 h4 h5
+            cases hcw : c.word with
+            | nil => simp [hcw] at hw
+            | cons a as =>
+              rw [hcw] at hw h3 h4 h5
+              have ha : (a == rHash) = false := by
+                simp only [List.head?_cons, Option.some.injEq] at h3; simp [h3]
+              have ha' : (a == rDQ) = false := by
+                simp only [List.head?_cons, Option.some.injEq] at h4; simp [h4]
+              have ha'' : (a == rBQ) = false := by
+                simp only [List.head?_cons, Option.some.injEq] at h5; simp [h5]
+              simp only [hcw] at h1 h2
+              simp only [Bool.or_eq_true, beq_iff_eq, h1, h2, false_or, ha, ha', ha'', Bool.false_and,
+                Bool.false_eq_true] at hw
+              exact ⟨a, as, rfl, hw⟩
 
 theorem kind_cmt_word {c : Chunk} (hw : c.wordOK = true) (hk : c.kind = .cmt) :
     ∃ as, c.word = rHash :: as ∧ as.all cmtCh = true ∧ isSpace (lastOf rHash as) = false := by
@@ -977,13 +1121,17 @@ theorem kind_cmt_word {c : Chunk} (hw : c.wordOK = true) (hk : c.kind = .cmt) :
           subst h3
           simp only [hcw] at h1 h2
           have hd : (rHash == rDQ) = false := by decide
+          have hd' : (rHash == rBQ) = false := by decide
           simp only [Bool.or_eq_true, beq_iff_eq, h1, h2, false_or, pwOK_hash, Bool.false_and, or_false,
-            Bool.and_eq_true, Bool.not_eq_true', true_and, Bool.false_eq_true, hd] at hw
+            Bool.and_eq_true, Bool.not_eq_true', true_and, Bool.false_eq_true, hd, hd'] at hw
           exact ⟨as, rfl, hw.1, hw.2⟩
-      · split at hk <;> cases hk
+      · split at hk
+        · cases hk
+        · split at hk <;> cases hk
 
+/-- a quoted word: a simple double-quoted or a simple backquoted string -/
 theorem kind_dq_word {c : Chunk} (hw : c.wordOK = true) (hk : c.kind = .dq) :
-    ∃ as, c.word = rDQ :: (as ++ [rDQ]) ∧ as.all dqCh = true := by
+    ∃ as, (c.word = rDQ :: (as ++ [rDQ]) ∧ as.all dqCh = true) ∨ (c.word = rBQ :: (as ++ [rBQ]) ∧ as.all bqCh = true) := by
   unfold Chunk.kind at hk
   unfold Chunk.wordOK at hw
   split at hk
@@ -1002,11 +1150,27 @@ theorem kind_dq_word {c : Chunk} (hw : c.wordOK = true) (hk : c.kind = .dq) :
             subst h4
             simp only [hcw] at h1 h2
             have hd : (rDQ == rHash) = false := by decide
+            have hd' : (rDQ == rBQ) = false := by decide
             simp only [Bool.or_eq_true, beq_iff_eq, h1, h2, false_or, pwOK_dq, Bool.false_and, or_false,
-              Bool.and_eq_true, true_and, Bool.false_eq_true, hd] at hw
+              Bool.and_eq_true, true_and, Bool.false_eq_true, hd, hd'] at hw
             obtain ⟨as, hc, hall⟩ := dqTail_spec t hw
-            exact ⟨as, by rw [hc], hall⟩
-        · cases hk
+            exact ⟨as, Or.inl ⟨by rw [hc], hall⟩⟩
+        · split at hk
+          · rename_i h1 h2 h3 h4 h5
+            cases hcw : c.word with
+            | nil => simp [hcw] at h5
+            | cons a t =>
+              rw [hcw] at hw h5
+              simp only [List.head?_cons, Option.some.injEq] at h5
+              subst h5
+              simp only [hcw] at h1 h2
+              have hd : (rBQ == rHash) = false := by decide
+              have hd' : (rBQ == rDQ) = false := by decide
+              simp only [Bool.or_eq_true, beq_iff_eq, h1, h2, false_or, pwOK_bq, Bool.false_and, or_false,
+                Bool.and_eq_true, true_and, Bool.false_eq_true, hd, hd'] at hw
+              obtain ⟨as, hc, hall⟩ := bqTail_spec t hw
+              exact ⟨as, Or.inr ⟨by rw [hc], hall⟩⟩
+          · cases hk
 
 theorem kind_opn_word {c : Chunk} (hk : c.kind = .opn) : c.word = [rOpen] := by
   unfold Chunk.kind at hk
@@ -1016,7 +1180,9 @@ theorem kind_opn_word {c : Chunk} (hk : c.kind = .opn) : c.word = [rOpen] := by
     · cases hk
     · split at hk
       · cases hk
-      · split at hk <;> cases hk
+      · split at hk
+        · cases hk
+        · split at hk <;> cases hk
 
 theorem kind_cls_word {c : Chunk} (hk : c.kind = .cls) : c.word = [rClose] := by
   unfold Chunk.kind at hk
@@ -1026,7 +1192,9 @@ theorem kind_cls_word {c : Chunk} (hk : c.kind = .cls) : c.word = [rClose] := by
     · assumption
     · split at hk
       · cases hk
-      · split at hk <;> cases hk
+      · split at hk
+        · cases hk
+        · split at hk <;> cases hk
 
 theorem reg_init : Reg ({} : FState) := ⟨rfl, rfl, rfl, rfl, rfl, rfl, rfl, rfl, by decide⟩
 
@@ -1458,6 +1626,21 @@ theorem np_dq_nl {N : Nat} {s : FState} {sep : List Rune} {as : List Rune}
   rw [this.2]
   simp [afterSep, h.nl, h.nest]
 
+/-- no brace pending, a backquoted string starts a new line -/
+theorem np_bq_nl {N : Nat} {s : FState} {sep : List Rune} {as : List Rune}
+    (h : NoPend N s) (hsep : sep.all wsCh = true) (hnl : 1 ≤ countNL sep) (has : as.all bqCh = true) :
+    InvQ N ((sep ++ rBQ :: (as ++ [rBQ])).foldl step s) ∧
+      ((sep ++ rBQ :: (as ++ [rBQ])).foldl step s).rout =
+        rBQ :: (as.reverse ++ (rBQ :: (tabsN N ++ (nlsN (min (countNL sep) 2) ++ s.rout)))) := by
+  rw [List.foldl_append, foldl_ws sep s h.reg hsep (countNL_pos_ne_nil hnl)]
+  have hreg := reg_afterSep h.reg sep
+  have hstep := first_bq_nl (t := afterSep s sep) hreg rfl h.nb (by simp [afterSep, h.nl]; exact hnl)
+  have := bq_word (N := N) (as := as) hstep has rfl hreg.comment hreg.escaped hreg.heredoc hreg.quoted hreg.hst hreg.cont
+    rfl rfl rfl h.nb h.nest
+  refine ⟨this.1, ?_⟩
+  rw [this.2]
+  simp [afterSep, h.nl, h.nest]
+
 /-- after a plain word (or a string), same line: blank + string -/
 theorem p_dq_sp {N : Nat} {s : FState} {sep : List Rune} {as : List Rune}
     (h : InvP N s) (hsep : sep.all wsCh = true) (hne : sep ≠ []) (hnl : countNL sep = 0) (has : as.all dqCh = true) :
@@ -1467,6 +1650,20 @@ theorem p_dq_sp {N : Nat} {s : FState} {sep : List Rune} {as : List Rune}
   have hreg := reg_afterSep h.reg sep
   have hstep := first_dq_sp (t := afterSep s sep) hreg rfl h.nb (by simp [afterSep, h.nl, hnl]) h.bol
   have := dq_word (N := N) (as := as) hstep has rfl hreg.comment hreg.escaped hreg.heredoc hreg.bq hreg.hst hreg.cont
+    rfl h.bol (by simp [afterSep, h.nl, hnl]) h.nb h.nest
+  refine ⟨this.1, ?_⟩
+  rw [this.2]
+  simp [afterSep]
+
+/-- after a plain word (or a backquoted string), same line: blank + string -/
+theorem p_bq_sp {N : Nat} {s : FState} {sep : List Rune} {as : List Rune}
+    (h : InvP N s) (hsep : sep.all wsCh = true) (hne : sep ≠ []) (hnl : countNL sep = 0) (has : as.all bqCh = true) :
+    InvQ N ((sep ++ rBQ :: (as ++ [rBQ])).foldl step s) ∧
+      ((sep ++ rBQ :: (as ++ [rBQ])).foldl step s).rout = rBQ :: (as.reverse ++ (rBQ :: rSP :: s.rout)) := by
+  rw [List.foldl_append, foldl_ws sep s h.reg hsep hne]
+  have hreg := reg_afterSep h.reg sep
+  have hstep := first_bq_sp (t := afterSep s sep) hreg rfl h.nb (by simp [afterSep, h.nl, hnl]) h.bol
+  have := bq_word (N := N) (as := as) hstep has rfl hreg.comment hreg.escaped hreg.heredoc hreg.quoted hreg.hst hreg.cont
     rfl h.bol (by simp [afterSep, h.nl, hnl]) h.nb h.nest
   refine ⟨this.1, ?_⟩
   rw [this.2]
@@ -1487,6 +1684,21 @@ theorem o_dq {N : Nat} {s : FState} {sep : List Rune} {as : List Rune}
   rw [this.2]
   simp [afterSep, h.nest]
 
+/-- a `{` is pending and a backquoted string follows on a later line -/
+theorem o_bq {N : Nat} {s : FState} {sep : List Rune} {as : List Rune}
+    (h : InvO N s) (hsep : sep.all wsCh = true) (hnl : 1 ≤ countNL sep) (has : as.all bqCh = true) :
+    InvQ N ((sep ++ rBQ :: (as ++ [rBQ])).foldl step s) ∧
+      ((sep ++ rBQ :: (as ++ [rBQ])).foldl step s).rout =
+        rBQ :: (as.reverse ++ (rBQ :: (tabsN N ++ (rNL :: rOpen :: s.rout)))) := by
+  rw [List.foldl_append, foldl_ws sep s h.reg hsep (countNL_pos_ne_nil hnl)]
+  have hreg := reg_afterSep h.reg sep
+  have hstep := pending_bq (t := afterSep s sep) hreg rfl h.ob h.obw h.last h.shape
+  have := bq_word (N := N) (as := as) hstep has rfl hreg.comment hreg.escaped hreg.heredoc hreg.quoted hreg.hst hreg.cont
+    rfl rfl rfl rfl (by simp [afterSep, h.nest])
+  refine ⟨this.1, ?_⟩
+  rw [this.2]
+  simp [afterSep, h.nest]
+
 /-- the input starts with a string -/
 theorem init_dq {as : List Rune} (has : as.all dqCh = true) :
     InvQ 0 ((rDQ :: (as ++ [rDQ])).foldl step {}) ∧
@@ -1494,6 +1706,15 @@ theorem init_dq {as : List Rune} (has : as.all dqCh = true) :
   have hstep : step ({} : FState) rDQ
       = { ({} : FState) with rout := [rDQ], last := rDQ, space := false, bol := false, quoted := true } := by decide
   have := dq_word (N := 0) (as := as) hstep has rfl rfl rfl rfl rfl rfl rfl rfl rfl rfl rfl rfl
+  exact ⟨this.1, this.2⟩
+
+/-- the input starts with a backquoted string -/
+theorem init_bq {as : List Rune} (has : as.all bqCh = true) :
+    InvQ 0 ((rBQ :: (as ++ [rBQ])).foldl step {}) ∧
+      ((rBQ :: (as ++ [rBQ])).foldl step {}).rout = rBQ :: (as.reverse ++ [rBQ]) := by
+  have hstep : step ({} : FState) rBQ
+      = { ({} : FState) with rout := [rBQ], last := rBQ, space := false, bol := false, backquoted := true } := by decide
+  have := bq_word (N := 0) (as := as) hstep has rfl rfl rfl rfl rfl rfl rfl rfl rfl rfl rfl rfl
   exact ⟨this.1, this.2⟩
 
 /-- after a comment: a string on one of the following lines -/
@@ -1513,6 +1734,28 @@ theorem m_dq {N : Nat} {s : FState} {ws : List Rune} {as : List Rune}
     simp [hk, hnest, hrout, nlsN]
   · have hstep := first_dq_nl (t := t) hreg hsp hob (by rw [hnl]; omega)
     have := dq_word (N := N) (as := as) hstep has rfl hreg.comment hreg.escaped hreg.heredoc hreg.bq hreg.hst hreg.cont
+      rfl rfl rfl hob hnest
+    refine ⟨this.1, ?_⟩
+    rw [this.2]
+    simp [hnest, hrout, hnl]
+
+/-- after a comment: a backquoted string on one of the following lines -/
+theorem m_bq {N : Nat} {s : FState} {ws : List Rune} {as : List Rune}
+    (h : InvM N s) (hws : ws.all wsCh = true) (has : as.all bqCh = true) :
+    InvQ N (((rNL :: ws) ++ rBQ :: (as ++ [rBQ])).foldl step s) ∧
+      (((rNL :: ws) ++ rBQ :: (as ++ [rBQ])).foldl step s).rout =
+        rBQ :: (as.reverse ++ (rBQ :: (tabsN N ++ (nlsN (min (countNL ws) 2) ++ (rNL :: s.rout))))) := by
+  obtain ⟨t, ht, hreg, hsp, hob, hnest, hbol, hlast, hnl, hrout⟩ := after_comment_sep h hws
+  rw [List.foldl_append, ht]
+  by_cases hk : countNL ws = 0
+  · have hstep := first_bq_bol (t := t) hreg hsp hob (by rw [hnl, hk]) hbol hlast
+    have := bq_word (N := N) (as := as) hstep has rfl hreg.comment hreg.escaped hreg.heredoc hreg.quoted hreg.hst hreg.cont
+      rfl rfl (by simp [hnl, hk]) hob hnest
+    refine ⟨this.1, ?_⟩
+    rw [this.2]
+    simp [hk, hnest, hrout, nlsN]
+  · have hstep := first_bq_nl (t := t) hreg hsp hob (by rw [hnl]; omega)
+    have := bq_word (N := N) (as := as) hstep has rfl hreg.comment hreg.escaped hreg.heredoc hreg.quoted hreg.hst hreg.cont
       rfl rfl rfl hob hnest
     refine ⟨this.1, ?_⟩
     rw [this.2]
@@ -1729,65 +1972,123 @@ theorem chunk_step_core {prev : Option Kind} {N : Nat} {s : FState} {c : Chunk} 
         rw [outOf_m this.1, outOf_m hinv', this.2]
         simp [canonSep, hk, Chunk.nl, hws, countNL, reverse_tabsN, reverse_nlsN]
   | dq =>
-    obtain ⟨as, hword, has⟩ := kind_dq_word hw hk
-    have hbl : ∀ p, braceLead p c = [] := by intro p; simp [braceLead, hword, rDQ, rOpen]
-    rw [hword]
-    cases prev with
-    | none =>
-      obtain ⟨rfl, rfl⟩ := hinv
-      simp only [List.isEmpty_iff, Bool.and_eq_true] at hcond
-      rw [hcond.1]
-      have := init_dq has
-      simp only [List.nil_append]
-      refine ⟨this.1, ?_⟩
-      rw [outOf_q this.1, this.2]
-      simp [outOf, canonSep]
-    | some k =>
-      cases k with
-      | plain =>
-        have hinv' : InvP N s := hinv
-        simp only [hk, Bool.and_eq_true, Bool.not_eq_true', List.isEmpty_eq_false_iff] at hcond
-        by_cases hnl : countNL c.sep = 0
-        · have := p_dq_sp hinv' hsep hcond.1 hnl has
+    obtain ⟨as, ⟨hword, has⟩ | ⟨hword, has⟩⟩ := kind_dq_word hw hk
+    · have hbl : ∀ p, braceLead p c = [] := by intro p; simp [braceLead, hword, rDQ, rOpen]
+      rw [hword]
+      cases prev with
+      | none =>
+        obtain ⟨rfl, rfl⟩ := hinv
+        simp only [List.isEmpty_iff, Bool.and_eq_true] at hcond
+        rw [hcond.1]
+        have := init_dq has
+        simp only [List.nil_append]
+        refine ⟨this.1, ?_⟩
+        rw [outOf_q this.1, this.2]
+        simp [outOf, canonSep]
+      | some k =>
+        cases k with
+        | plain =>
+          have hinv' : InvP N s := hinv
+          simp only [hk, Bool.and_eq_true, Bool.not_eq_true', List.isEmpty_eq_false_iff] at hcond
+          by_cases hnl : countNL c.sep = 0
+          · have := p_dq_sp hinv' hsep hcond.1 hnl has
+            refine ⟨this.1, ?_⟩
+            rw [outOf_q this.1, outOf_np hinv'.np, this.2]
+            simp [canonSep, hbl, hk, Chunk.nl, hnl]
+          · have := np_dq_nl hinv'.np hsep (by omega) has
+            refine ⟨this.1, ?_⟩
+            rw [outOf_q this.1, outOf_np hinv'.np, this.2]
+            simp [canonSep, hbl, hk, Chunk.nl, hnl, reverse_tabsN, reverse_nlsN]
+        | opn =>
+          have hinv' : InvO N s := hinv
+          simp only [hk, Bool.and_eq_true, decide_eq_true_eq] at hcond
+          have := o_dq hinv' hsep hcond.1 has
+          refine ⟨this.1, ?_⟩
+          rw [outOf_q this.1, outOf_o hinv', this.2]
+          simp [canonSep, hk, reverse_tabsN]
+        | cls =>
+          have hinv' : InvC N s := hinv
+          simp only [hk, Bool.and_eq_true, decide_eq_true_eq] at hcond
+          have := np_dq_nl hinv'.np hsep hcond.1 has
           refine ⟨this.1, ?_⟩
           rw [outOf_q this.1, outOf_np hinv'.np, this.2]
-          simp [canonSep, hbl, hk, Chunk.nl, hnl]
-        · have := np_dq_nl hinv'.np hsep (by omega) has
-          refine ⟨this.1, ?_⟩
-          rw [outOf_q this.1, outOf_np hinv'.np, this.2]
+          have hnl : countNL c.sep ≠ 0 := by have := hcond.1; unfold Chunk.nl at this; omega
           simp [canonSep, hbl, hk, Chunk.nl, hnl, reverse_tabsN, reverse_nlsN]
-      | opn =>
-        have hinv' : InvO N s := hinv
-        simp only [hk, Bool.and_eq_true, decide_eq_true_eq] at hcond
-        have := o_dq hinv' hsep hcond.1 has
+        | dq => exact absurd rfl hp
+        | cmt =>
+          have hinv' : InvM N s := hinv
+          simp only [hk, Bool.and_eq_true, beq_iff_eq] at hcond
+          obtain ⟨ws, hws⟩ : ∃ ws, c.sep = rNL :: ws := by
+            cases hcs : c.sep with
+            | nil => rw [hcs] at hcond; simp at hcond
+            | cons x ws =>
+              rw [hcs] at hcond
+              simp only [List.head?_cons, Option.some.injEq] at hcond
+              exact ⟨ws, by rw [hcond.1]⟩
+          rw [hws] at hsep ⊢
+          simp only [List.all_cons, Bool.and_eq_true] at hsep
+          have := m_dq hinv' hsep.2 has
+          refine ⟨this.1, ?_⟩
+          rw [outOf_q this.1, outOf_m hinv', this.2]
+          simp [canonSep, hk, Chunk.nl, hws, countNL, reverse_tabsN, reverse_nlsN]
+    · have hbl : ∀ p, braceLead p c = [] := by intro p; simp [braceLead, hword, rBQ, rOpen]
+      rw [hword]
+      cases prev with
+      | none =>
+        obtain ⟨rfl, rfl⟩ := hinv
+        simp only [List.isEmpty_iff, Bool.and_eq_true] at hcond
+        rw [hcond.1]
+        have := init_bq has
+        simp only [List.nil_append]
         refine ⟨this.1, ?_⟩
-        rw [outOf_q this.1, outOf_o hinv', this.2]
-        simp [canonSep, hk, reverse_tabsN]
-      | cls =>
-        have hinv' : InvC N s := hinv
-        simp only [hk, Bool.and_eq_true, decide_eq_true_eq] at hcond
-        have := np_dq_nl hinv'.np hsep hcond.1 has
-        refine ⟨this.1, ?_⟩
-        rw [outOf_q this.1, outOf_np hinv'.np, this.2]
-        have hnl : countNL c.sep ≠ 0 := by have := hcond.1; unfold Chunk.nl at this; omega
-        simp [canonSep, hbl, hk, Chunk.nl, hnl, reverse_tabsN, reverse_nlsN]
-      | dq => exact absurd rfl hp
-      | cmt =>
-        have hinv' : InvM N s := hinv
-        simp only [hk, Bool.and_eq_true, beq_iff_eq] at hcond
-        obtain ⟨ws, hws⟩ : ∃ ws, c.sep = rNL :: ws := by
-          cases hcs : c.sep with
-          | nil => rw [hcs] at hcond; simp at hcond
-          | cons x ws =>
-            rw [hcs] at hcond
-            simp only [List.head?_cons, Option.some.injEq] at hcond
-            exact ⟨ws, by rw [hcond.1]⟩
-        rw [hws] at hsep ⊢
-        simp only [List.all_cons, Bool.and_eq_true] at hsep
-        have := m_dq hinv' hsep.2 has
-        refine ⟨this.1, ?_⟩
-        rw [outOf_q this.1, outOf_m hinv', this.2]
-        simp [canonSep, hk, Chunk.nl, hws, countNL, reverse_tabsN, reverse_nlsN]
+        rw [outOf_q this.1, this.2]
+        simp [outOf, canonSep]
+      | some k =>
+        cases k with
+        | plain =>
+          have hinv' : InvP N s := hinv
+          simp only [hk, Bool.and_eq_true, Bool.not_eq_true', List.isEmpty_eq_false_iff] at hcond
+          by_cases hnl : countNL c.sep = 0
+          · have := p_bq_sp hinv' hsep hcond.1 hnl has
+            refine ⟨this.1, ?_⟩
+            rw [outOf_q this.1, outOf_np hinv'.np, this.2]
+            simp [canonSep, hbl, hk, Chunk.nl, hnl]
+          · have := np_bq_nl hinv'.np hsep (by omega) has
+            refine ⟨this.1, ?_⟩
+            rw [outOf_q this.1, outOf_np hinv'.np, this.2]
+            simp [canonSep, hbl, hk, Chunk.nl, hnl, reverse_tabsN, reverse_nlsN]
+        | opn =>
+          have hinv' : InvO N s := hinv
+          simp only [hk, Bool.and_eq_true, decide_eq_true_eq] at hcond
+          have := o_bq hinv' hsep hcond.1 has
+          refine ⟨this.1, ?_⟩
+          rw [outOf_q this.1, outOf_o hinv', this.2]
+          simp [canonSep, hk, reverse_tabsN]
+        | cls =>
+          have hinv' : InvC N s := hinv
+          simp only [hk, Bool.and_eq_true, decide_eq_true_eq] at hcond
+          have := np_bq_nl hinv'.np hsep hcond.1 has
+          refine ⟨this.1, ?_⟩
+          rw [outOf_q this.1, outOf_np hinv'.np, this.2]
+          have hnl : countNL c.sep ≠ 0 := by have := hcond.1; unfold Chunk.nl at this; omega
+          simp [canonSep, hbl, hk, Chunk.nl, hnl, reverse_tabsN, reverse_nlsN]
+        | dq => exact absurd rfl hp
+        | cmt =>
+          have hinv' : InvM N s := hinv
+          simp only [hk, Bool.and_eq_true, beq_iff_eq] at hcond
+          obtain ⟨ws, hws⟩ : ∃ ws, c.sep = rNL :: ws := by
+            cases hcs : c.sep with
+            | nil => rw [hcs] at hcond; simp at hcond
+            | cons x ws =>
+              rw [hcs] at hcond
+              simp only [List.head?_cons, Option.some.injEq] at hcond
+              exact ⟨ws, by rw [hcond.1]⟩
+          rw [hws] at hsep ⊢
+          simp only [List.all_cons, Bool.and_eq_true] at hsep
+          have := m_bq hinv' hsep.2 has
+          refine ⟨this.1, ?_⟩
+          rw [outOf_q this.1, outOf_m hinv', this.2]
+          simp [canonSep, hk, Chunk.nl, hws, countNL, reverse_tabsN, reverse_nlsN]
   | opn =>
     rw [kind_opn_word hk]
     cases prev with
@@ -1914,7 +2215,8 @@ theorem fmt_chunks : ∀ (cs : List Chunk) (prev : Option Kind) (N : Nat) (s : F
     · subst hg
       have h : InvQ N s := hinv
       obtain ⟨r, hr⟩ := h.head
-      exact ⟨⟨_, r, hr, by decide⟩, (outOf_q h).symm, by simp [flushEnd, h.nb]⟩
+      have hns : isSpace s.last = false := by rcases h.last with h' | h' <;> rw [h'] <;> decide
+      exact ⟨⟨_, r, hr, hns⟩, (outOf_q h).symm, by simp [flushEnd, h.nb]⟩
   | c :: cs, prev, N, s, hg, hinv => by
     have h1 := chunk_step hg hinv
     have hg' : goodFrom (some c.kind) cs = true := by
@@ -1968,7 +2270,7 @@ theorem word_nonspace {c : Chunk} (hw : c.wordOK = true) :
       obtain ⟨r, hr⟩ := reverse_append_lastOf t h []
       have hrev : (h :: t).reverse = lastOf h t :: r := by
         rw [List.reverse_cons]; exact hr
-      rcases hw with (hw | hw) | hw
+      rcases hw with ((hw | hw) | hw) | hw
       · obtain ⟨⟨hh, -⟩, hl⟩ := hw
         subst hh
         exact ⟨⟨_, _, rfl, by decide⟩, ⟨_, r, hrev, hl⟩⟩
@@ -1976,6 +2278,10 @@ theorem word_nonspace {c : Chunk} (hw : c.wordOK = true) :
         subst hh
         obtain ⟨content, hc, -⟩ := dqTail_spec t hd
         exact ⟨⟨_, _, rfl, by decide⟩, ⟨rDQ, content.reverse ++ [rDQ], by simp [hc], by decide⟩⟩
+      · obtain ⟨hh, hd⟩ := hw
+        subst hh
+        obtain ⟨content, hc, -⟩ := bqTail_spec t hd
+        exact ⟨⟨_, _, rfl, by decide⟩, ⟨rBQ, content.reverse ++ [rBQ], by simp [hc], by decide⟩⟩
       · have hall := pw_all _ _ hw
         simp only [List.all_cons, Bool.and_eq_true] at hall
         exact ⟨⟨_, _, rfl, (wordCh_spec hall.1).1⟩, ⟨_, r, hrev, (wordCh_spec (lastOf_wordCh t h hall.1 hall.2)).1⟩⟩
@@ -2013,8 +2319,9 @@ theorem word_head_not_bom {c : Chunk} (hw : c.wordOK = true) {a : Rune} {r : Lis
   rcases hw with (hw | hw) | hw
   · rw [hw.1]; decide
   · rw [hw.1]; decide
-  · rcases hw with (hw | hw) | hw
+  · rcases hw with ((hw | hw) | hw) | hw
     · rw [hw.1.1]; decide
+    · rw [hw.1]; decide
     · rw [hw.1]; decide
     · have hall := pw_all _ _ hw
       simp only [List.all_cons, Bool.and_eq_true, wordCh, Bool.or_eq_true, beq_iff_eq] at hall
